@@ -14,6 +14,7 @@ import (
 	"verif/harness/lib/fakesource"
 	"verif/harness/lib/miniredis"
 	"verif/harness/lib/prng"
+	"verif/harness/lib/rdbgen"
 	"verif/harness/lib/wk"
 )
 
@@ -36,7 +37,29 @@ func runC08(r resIface, c *c08case, cfg *e2eCfg, rng *prng.R) {
 	cmds := genStream(rng, streamOpts{N: c.Commands, DBs: []int{0, 1, 2}, Modelled: true, Tx: true, Keys: 4, StartDB: -1, LFs: true})
 	stream := streamBytes(cmds)
 	sc := fakesource.Script{RunID: e2eRunID, StartOffset: c.StartOffset, RDB: minimalRDB(rng, nil)}
-	e, err := startE2E(cfg, sc, nil, false)
+	var slowFull func(e *e2eRun)
+	if c.Traffic == "during-full-sync" {
+		// a full phase that lasts about a second (slow target) while the command stream is already arriving
+		var ks []*rdbgen.KeySpec
+		for i := 0; i < 150; i++ {
+			ks = append(ks, &rdbgen.KeySpec{DB: uint32(i % 2), Key: []byte(fmt.Sprintf("rdbkey-%d", i)), Val: &rdbgen.Value{Kind: "string", Str: []byte("v")}, Enc: "raw"})
+		}
+		sc.RDB = minimalRDB(rng, ks)
+		slowFull = func(x *e2eRun) {
+			x.TCP.Gate = func(conn int, argv [][]byte) {
+				if strings.EqualFold(string(argv[0]), "restore") {
+					time.Sleep(12 * time.Millisecond)
+				}
+			}
+		}
+	}
+	var e *e2eRun
+	var err error
+	if slowFull != nil {
+		e, err = startE2E(cfg, sc, nil, false, slowFull)
+	} else {
+		e, err = startE2E(cfg, sc, nil, false)
+	}
 	if err != nil {
 		r.Inconcl("startE2E: " + err.Error())
 		return
@@ -86,6 +109,10 @@ func runC08(r resIface, c *c08case, cfg *e2eCfg, rng *prng.R) {
 				e.Src.Feed(stream[lo:hi])
 				time.Sleep(150 * time.Millisecond)
 			}
+		case "during-full-sync":
+			e.Src.Feed(stream[:len(stream)/2]) // arrives while the RDB is still being restored
+			time.Sleep(1500 * time.Millisecond)
+			e.Src.Feed(stream[len(stream)/2:])
 		default: // "early-burst": everything at once, then idle
 			e.Src.Feed(stream)
 		}
@@ -110,6 +137,10 @@ func runC08(r resIface, c *c08case, cfg *e2eCfg, rng *prng.R) {
 	}
 	feedAll()
 	wg.Wait()
+	if c.Drop == "idle" {
+		// the quiet period must start after the tool has come back (its ack ticker restarts with the new link)
+		waitUntil(15*time.Second, func() bool { _, p := e.Src.Snapshot(); return len(p) >= 2 })
+	}
 	// quiet period: everything written, then >= 2.5 s of silence so that at least two ack ticks pass
 	total := int64(len(stream))
 	waitUntil(25*time.Second, func() bool { return e.Src.Written() >= total })
@@ -189,6 +220,11 @@ func runC08(r resIface, c *c08case, cfg *e2eCfg, rng *prng.R) {
 	}
 	// --- the command stream continued at the exact byte: target equals the reference history
 	ref := miniredis.NewServer()
+	if c.Traffic == "during-full-sync" {
+		for i := 0; i < 150; i++ {
+			ref.Put(i%2, fmt.Sprintf("rdbkey-%d", i), &rdbgen.Value{Kind: "string", Str: []byte("v")}, 0)
+		}
+	}
 	applyRef(ref, cmds, cfg, 1<<62)
 	want := expectedForward(cmds, cfg, 0)
 	wantData, _ := stripPings(want)
@@ -239,7 +275,7 @@ func c08histChild(raw json.RawMessage, scratch string) {
 	var mu sync.Mutex
 	for i := a.Start; i < a.End; i++ {
 		rng := base.At(uint64(i))
-		c := &c08case{Index: i, Resume: ex.Resume, StartOffset: []int64{0, 1, 1<<31 - 5, 1 << 40}[i%4], Traffic: []string{"early-burst", "burst-idle-burst", "trickle"}[i/4%3],
+		c := &c08case{Index: i, Resume: ex.Resume, StartOffset: []int64{0, 1, 1<<31 - 5, 1 << 40}[i%4], Traffic: []string{"early-burst", "burst-idle-burst", "trickle", "during-full-sync"}[i/4%4],
 			Drop: []string{"none", "boundary", "mid", "after-boundary", "twice", "idle"}[i%6], Commands: rng.Pick(40, 120)}
 		mu.Lock()
 		wk.ChildCase(i, c)
@@ -260,7 +296,7 @@ func c08histChild(raw json.RawMessage, scratch string) {
 
 func c08(c *wk.Ctx) {
 	r := c.R
-	r.Rule = "fault enumeration over link-drop positions x traffic histories over wall-clock time: end-to-end DbSyncer.Sync() runs against a scripted master that records every REPLCONF ACK and PSYNC together with the number of stream bytes it had written by then; start offsets {0, 1, 2^31-5, 2^40}; traffic plans (early burst then idle, burst-idle-burst, steady trickle across many ack ticks); drop plans (none, at a command boundary, inside a command, one byte after a boundary, twice, while idle). ACK <= start+written, never decreasing, == start+total after 2.7 s of silence; reconnect PSYNC <announced id> <start+received+1>; final target == source history (INCR/APPEND/RPUSH make a lost or repeated byte visible); with resume on every stored checkpoint offset is the end of a forwarded command. distinct = (traffic plan, drop plan, start offset, resume)"
+	r.Rule = "fault enumeration over link-drop positions x traffic histories over wall-clock time: end-to-end DbSyncer.Sync() runs against a scripted master that records every REPLCONF ACK and PSYNC together with the number of stream bytes it had written by then; start offsets {0, 1, 2^31-5, 2^40}; traffic plans (early burst then idle, burst-idle-burst, steady trickle across many ack ticks, stream arriving while a slowed-down full phase is still restoring the RDB); drop plans (none, at a command boundary, inside a command, one byte after a boundary, twice, while idle). ACK <= start+written, never decreasing, == start+total after 2.7 s of silence; reconnect PSYNC <announced id> <start+received+1>; final target == source history (INCR/APPEND/RPUSH make a lost or repeated byte visible); with resume on every stored checkpoint offset is the end of a forwarded command. distinct = (traffic plan, drop plan, start offset, resume)"
 	onDeath := func(d wk.Death) {
 		if d.Result.TimedOut {
 			r.Inconcl("C08 child watchdog: " + wk.Tail(d.Result.Stderr, 300))
@@ -271,7 +307,7 @@ func c08(c *wk.Ctx) {
 	if wk.ReplayOne(c, "c08hist", func(idx int) interface{} { return c08extra{Resume: idx/1000%2 == 1} }, onDeath) {
 		return
 	}
-	per := c.N(12, 48)
+	per := c.N(16, 48)
 	nchild := c.N(4, 8)
 	wk.Parallel(nchild, 8, func(i int) {
 		wk.RunBatch(c, "c08hist", i*1000, i*1000+per, c08extra{Resume: i%2 == 1}, 40*time.Minute, onDeath)
